@@ -1155,6 +1155,10 @@ class Exec:
             st.ghost['_n'] = it.n
         pre = st.copy()
         for lbl, g in inv(self, st, j0):
+            if z3.is_false(z3.simplify(Z(g))):
+                # a clause that is literally False is a type guard of the contract ("Q is not a row vector"): the contract does not
+                # fit the values the restructured code produces - undecided, not a violation
+                raise ContractMismatch(f'loop #{ordn} of {self.func.qual}: invariant clause {lbl!r} cannot be stated for the values of the current source')
             self.oblige(st, 'inv-init', f'loop{ordn}.{lbl}', g, s, assume=False)
         # havoc
         names, muts = self.assigned_names(s.body)
@@ -1204,6 +1208,8 @@ class Exec:
             if o1.kind in ('normal', 'continue'):
                 s1.ghost['_j'] = s1.ghost[f'_j{ordn}'] = j + 1
                 for lbl, g in inv(self, s1, j + 1):
+                    if z3.is_false(z3.simplify(Z(g))):
+                        raise ContractMismatch(f'loop #{ordn} of {self.func.qual}: invariant clause {lbl!r} cannot be stated for the values of the current source')
                     self.oblige(s1, 'inv-keep', f'loop{ordn}.{lbl}', g, s, assume=False)
             elif o1.kind == 'break':
                 out.append((s1, NORMAL))
